@@ -86,7 +86,14 @@ func TestVerifC15Log(tt *testing.T) {
 	st.Finish(tt)
 
 	opts := vfsOpts{AccessHeavy: false, Drops: true}
+	// A memory-backed directory if there is one: the real file log opens,
+	// appends and closes the file for every entry.
 	dir := tt.TempDir()
+	if shm, err := os.MkdirTemp("/dev/shm", "c15-verif-"); err == nil {
+		dir = shm
+		tt.Cleanup(func() { _ = os.RemoveAll(shm) })
+	}
+
 	logPath := filepath.Join(dir, "querylog.jsonl")
 
 	rapid.Check(tt, func(t *rapid.T) {
